@@ -10,6 +10,8 @@ SRC=/tmp/seed-$ID-out/$V
 [[ $V == f ]] && SRC=/tmp/seed3-$ID-out/b
 [[ $V == g ]] && SRC=/tmp/seed4-$ID-out/a
 [[ $V == h ]] && SRC=/tmp/seed4-$ID-out/b
+[[ $V == i ]] && SRC=/tmp/seed5-$ID-out/a
+[[ $V == j ]] && SRC=/tmp/seed5-$ID-out/b
 [[ -d /verif/seeded/$ID-$V ]] && SRC=/verif/seeded/$ID-$V
 D=$(mktemp -d /tmp/vf-seed-XXXXXX)
 if [[ -n "${BASE:-}" ]]; then git -C /repo archive "$BASE" | tar -x -C "$D"; echo "(base tree: $BASE)"; else rsync -a --exclude .git --exclude __pycache__ /repo/ "$D/"; fi
